@@ -270,6 +270,14 @@ def case_nfkc(acc, position, cp):
             u = U.build(scheme="http", host="a" + c + "b.com", path="/p")
         elif position == "with_host":
             u = U("http://h.com/p").with_host("a" + c + "b.com")
+        elif position == "ctor_before_bracket":
+            u = U("http://user" + c + "[::1]/p")
+        elif position == "ctor_after_bracket":
+            u = U("http://[::1]" + c + "evil.example/p")
+        elif position == "ctor_bracket_userinfo":
+            u = U("http://a" + c + "b@[2001:db8::1]:81/p")
+        elif position == "build_authority_bracket":
+            u = U.build(scheme="http", authority="a" + c + "b@[::1]", path="/p")
         else:
             raise KeyError(position)
     except ValueError:
@@ -296,14 +304,15 @@ def case_nfkc(acc, position, cp):
 
 
 CASES = {"host": case_host, "nfkc": case_nfkc, "pair": case_host_pair}
-NFKC_POSITIONS = ["ctor_host", "ctor_userinfo", "ctor_password", "ctor_port", "build_authority", "build_authority_userinfo", "build_host", "with_host"]
+NFKC_POSITIONS = ["ctor_host", "ctor_userinfo", "ctor_password", "ctor_port", "build_authority", "build_authority_userinfo", "build_host", "with_host",
+                  "ctor_before_bracket", "ctor_after_bracket", "ctor_bracket_userinfo", "build_authority_bracket"]
 
 
 def ip_spellings():
     out = ["127.0.0.1", "127.000.0.1", "1.2.3", "999.1.1.1", "1.2.3.4.5", "0.0.0.0", "255.255.255.255", "256.1.1.1", "1.2.3.04", "0x7f.1.1.1",
            "1", "1.2.3.4.", "v1.x", "vF.a:b", "::", "::1", "1::", "::ffff:1.2.3.4", "64:ff9b::1.2.3.4", "1:2:3:4:5:6:7:8", "1:2:3:4:5:6:7",
            "1:2:3:4:5:6:7:8:9", "12345::", "g::1", "::1%eth0", "fe80::1%25eth0", "fe80::1%Eth0", "fe80::1%é", "fe80::1%", "fe80::1%a/b", "fe80::1%a b",
-           "FE80::A%1", "0000:0000:0000:0000:0000:ffff:192.168.100.100", "2001:0db8:0000:0000:0000:0000:10.10.10.1",
+           "FE80::A%1", "fe80::1%251", "fe80::1%25g0", "fe80::1%25", "fe80::1%2", "0000:0000:0000:0000:0000:ffff:192.168.100.100", "2001:0db8:0000:0000:0000:0000:10.10.10.1",
            "0000:0000:0000:0000:0000:FFFF:255.255.255.255%Eth0", "127.0.0.1%@evil.example:1", "127.0.0.1%/evil.example/1", "10.0.0.1%?q=1", "1.2.3.4%a b1", "1.2.3.4%#1",
            "1.2.3.4%[1", "[::1]", "::1]", "[::1", "0:0:0:0:0:0:0:0", "2001:DB8:0:0:0:0:0:FF", "2001:db8::0:ff"]
     base = ["2001", "db8", "0", "0", "0", "0", "0", "ff"]
